@@ -17,6 +17,7 @@ FIRST_MISSED = {
     "C04-w6-2", "C05-w6-2", "C08-w6-2", "C09-w6-2", "C10-w6-1", "C10-w6-2", "C15-w6-1", "C15-w6-2", "C20-w6-1", "C20-w6-2",
     "C04-w7-1", "C05-w7-1", "C06-w7-1", "C06-w7-2", "C09-w7-1", "C11-w7-1", "C15-w7-2", "C20-w7-2",
     "C04-w8-2", "C05-w8-1", "C06-w8-2", "C09-w8-1", "C09-w8-2", "C10-w8-1", "C10-w8-2", "C11-w8-2", "C15-w8-1", "C15-w8-2", "C20-w8-1",
+    "C05-w9-1", "C06-w9-1",
 }
 
 WHAT = {
@@ -168,6 +169,15 @@ WHAT = {
     "C15-w8-2": "the default cap becomes a Runtime field that only the standard constructor fills in: runtimes assembled as composite literals have none",
     "C20-w8-1": "the target is read before the containment check (refused all the same, but the outside file has been opened and read)",
     "C20-w8-2": "fs.FS library does not prefix the loading file's directory when the location already starts with it",
+    "C04-w9-1": "the threaded context is copied onto an environment only when it carries none: functions defined under another context ignore the caller's cancellation in operator sub-evaluations",
+    "C05-w9-1": "Go stack of a recovered panic kept on the live stack and cleared by Pop: after a panic at stack height zero a forged internal-panic counts as a real one",
+    "C06-w9-1": "a bare specifier also matches the condition <current package>:<specifier>",
+    "C08-w9-1": "a function whose body is a single atom is evaluated before the switch to its defining package",
+    "C09-w9-1": "gensym numbers drawn from a process-wide counter",
+    "C10-w9-1": "json:use-exact-integers also becomes the default of runtimes created later in the process",
+    "C11-w9-1": "keyed stable-sort installs a freshly allocated sorted slice into the target's header: views and aliases no longer see the sort",
+    "C15-w9-1": "timer cap for contexts with a deadline but no Done channel written as a max: the sleep blocks until the deadline",
+    "C20-w9-1": "root-relative fallback for locations that miss next to the loading file, never passed through link resolution",
 }
 
 
